@@ -149,6 +149,54 @@ impl Loader for MemLoader {
         }
         Ok(None)
     }
+
+    /// Mirrors `FsLoader::find_first` (rsass commit 31d0dab): every name in one root before
+    /// the next root.  Each (root, name) probe is one entry of the call log (logged as the
+    /// name), so with the usual single root the log is what it was with `find_file`.
+    #[cfg(rsass_has_find_first)]
+    fn find_first(
+        &self,
+        urls: &[String],
+    ) -> Result<Option<(usize, MemFile)>, LoadError> {
+        for root in &self.roots {
+            for (i, url) in urls.iter().enumerate() {
+                if let Some(f) = self.probe(root, url)? {
+                    return Ok(Some((i, f)));
+                }
+            }
+        }
+        Ok(None)
+    }
+}
+
+impl MemLoader {
+    /// one probe of `url` under one root; `idx` = its position in the call log
+    fn probe(&self, root: &str, url: &str) -> Result<Option<MemFile>, LoadError> {
+        let idx = {
+            let mut log = self.log.lock().unwrap();
+            log.calls.push(url.to_string());
+            log.hits.push(false);
+            log.calls.len() - 1
+        };
+        let fault = self.faults.get(&idx).copied();
+        if fault == Some(Fault::Lookup) {
+            return Err(LoadError::Input(
+                url.to_string(),
+                io::Error::other("injected lookup fault"),
+            ));
+        }
+        if url.is_empty() {
+            return Ok(None);
+        }
+        if let Some(data) = self.files.get(&format!("{root}{url}")) {
+            self.log.lock().unwrap().hits[idx] = true;
+            return Ok(Some(MemFile {
+                data: Cursor::new(data.clone()),
+                fail: fault == Some(Fault::Read),
+            }));
+        }
+        Ok(None)
+    }
 }
 
 /// `name:hex,name:hex` (names are plain ASCII paths without ',' or ':')
